@@ -1,9 +1,12 @@
 SPECIFICATION Spec
 CONSTANTS NAsg = 7
  NGrd = 5
- NAnn = 7
- NPre = 4
- NPost = 7
+ NAnn = 5
+ NInA = 3
+ NInG = 2
+ NPre = 1
+ NPost = 6
+ NNatPost = 4
  Deep = TRUE
 INVARIANT Sound
 INVARIANT ExecAgrees
